@@ -1,0 +1,286 @@
+//go:build verif
+
+package protocol
+
+// Harness functions for the verification machinery in /verif: they compose the real Encode/Decode
+// methods so that round-trip properties become ordinary postconditions. Never compiled without -tags verif.
+
+func verifRoundTripCommand(x *Command, y *Command, buf []byte) bool {
+	if x.Encode(buf) != nil {
+		return false
+	}
+	return y.Decode(buf) == nil
+}
+
+func verifReencodeCommand(x *Command, in []byte, out []byte) bool {
+	if x.Decode(in) != nil {
+		return false
+	}
+	return x.Encode(out) == nil
+}
+
+func verifRoundTripResultCommand(x *ResultCommand, y *ResultCommand, buf []byte) bool {
+	if x.Encode(buf) != nil {
+		return false
+	}
+	return y.Decode(buf) == nil
+}
+
+func verifReencodeResultCommand(x *ResultCommand, in []byte, out []byte) bool {
+	if x.Decode(in) != nil {
+		return false
+	}
+	return x.Encode(out) == nil
+}
+
+func verifRoundTripInitCommand(x *InitCommand, y *InitCommand, buf []byte) bool {
+	if x.Encode(buf) != nil {
+		return false
+	}
+	return y.Decode(buf) == nil
+}
+
+func verifReencodeInitCommand(x *InitCommand, in []byte, out []byte) bool {
+	if x.Decode(in) != nil {
+		return false
+	}
+	return x.Encode(out) == nil
+}
+
+func verifRoundTripInitResultCommand(x *InitResultCommand, y *InitResultCommand, buf []byte) bool {
+	if x.Encode(buf) != nil {
+		return false
+	}
+	return y.Decode(buf) == nil
+}
+
+func verifReencodeInitResultCommand(x *InitResultCommand, in []byte, out []byte) bool {
+	if x.Decode(in) != nil {
+		return false
+	}
+	return x.Encode(out) == nil
+}
+
+func verifRoundTripLockCommand(x *LockCommand, y *LockCommand, buf []byte) bool {
+	if x.Encode(buf) != nil {
+		return false
+	}
+	return y.Decode(buf) == nil
+}
+
+func verifReencodeLockCommand(x *LockCommand, in []byte, out []byte) bool {
+	if x.Decode(in) != nil {
+		return false
+	}
+	return x.Encode(out) == nil
+}
+
+func verifRoundTripLockResultCommand(x *LockResultCommand, y *LockResultCommand, buf []byte) bool {
+	if x.Encode(buf) != nil {
+		return false
+	}
+	return y.Decode(buf) == nil
+}
+
+func verifReencodeLockResultCommand(x *LockResultCommand, in []byte, out []byte) bool {
+	if x.Decode(in) != nil {
+		return false
+	}
+	return x.Encode(out) == nil
+}
+
+func verifRoundTripStateCommand(x *StateCommand, y *StateCommand, buf []byte) bool {
+	if x.Encode(buf) != nil {
+		return false
+	}
+	return y.Decode(buf) == nil
+}
+
+func verifReencodeStateCommand(x *StateCommand, in []byte, out []byte) bool {
+	if x.Decode(in) != nil {
+		return false
+	}
+	return x.Encode(out) == nil
+}
+
+func verifRoundTripStateResultCommand(x *StateResultCommand, y *StateResultCommand, buf []byte) bool {
+	if x.Encode(buf) != nil {
+		return false
+	}
+	return y.Decode(buf) == nil
+}
+
+func verifReencodeStateResultCommand(x *StateResultCommand, in []byte, out []byte) bool {
+	if x.Decode(in) != nil {
+		return false
+	}
+	return x.Encode(out) == nil
+}
+
+func verifRoundTripAdminCommand(x *AdminCommand, y *AdminCommand, buf []byte) bool {
+	if x.Encode(buf) != nil {
+		return false
+	}
+	return y.Decode(buf) == nil
+}
+
+func verifReencodeAdminCommand(x *AdminCommand, in []byte, out []byte) bool {
+	if x.Decode(in) != nil {
+		return false
+	}
+	return x.Encode(out) == nil
+}
+
+func verifRoundTripAdminResultCommand(x *AdminResultCommand, y *AdminResultCommand, buf []byte) bool {
+	if x.Encode(buf) != nil {
+		return false
+	}
+	return y.Decode(buf) == nil
+}
+
+func verifReencodeAdminResultCommand(x *AdminResultCommand, in []byte, out []byte) bool {
+	if x.Decode(in) != nil {
+		return false
+	}
+	return x.Encode(out) == nil
+}
+
+func verifRoundTripPingCommand(x *PingCommand, y *PingCommand, buf []byte) bool {
+	if x.Encode(buf) != nil {
+		return false
+	}
+	return y.Decode(buf) == nil
+}
+
+func verifReencodePingCommand(x *PingCommand, in []byte, out []byte) bool {
+	if x.Decode(in) != nil {
+		return false
+	}
+	return x.Encode(out) == nil
+}
+
+func verifRoundTripPingResultCommand(x *PingResultCommand, y *PingResultCommand, buf []byte) bool {
+	if x.Encode(buf) != nil {
+		return false
+	}
+	return y.Decode(buf) == nil
+}
+
+func verifReencodePingResultCommand(x *PingResultCommand, in []byte, out []byte) bool {
+	if x.Decode(in) != nil {
+		return false
+	}
+	return x.Encode(out) == nil
+}
+
+func verifRoundTripQuitCommand(x *QuitCommand, y *QuitCommand, buf []byte) bool {
+	if x.Encode(buf) != nil {
+		return false
+	}
+	return y.Decode(buf) == nil
+}
+
+func verifReencodeQuitCommand(x *QuitCommand, in []byte, out []byte) bool {
+	if x.Decode(in) != nil {
+		return false
+	}
+	return x.Encode(out) == nil
+}
+
+func verifRoundTripQuitResultCommand(x *QuitResultCommand, y *QuitResultCommand, buf []byte) bool {
+	if x.Encode(buf) != nil {
+		return false
+	}
+	return y.Decode(buf) == nil
+}
+
+func verifReencodeQuitResultCommand(x *QuitResultCommand, in []byte, out []byte) bool {
+	if x.Decode(in) != nil {
+		return false
+	}
+	return x.Encode(out) == nil
+}
+
+func verifRoundTripCallCommand(x *CallCommand, y *CallCommand, buf []byte) bool {
+	if x.Encode(buf) != nil {
+		return false
+	}
+	return y.Decode(buf) == nil
+}
+
+func verifReencodeCallCommand(x *CallCommand, in []byte, out []byte) bool {
+	if x.Decode(in) != nil {
+		return false
+	}
+	return x.Encode(out) == nil
+}
+
+func verifRoundTripCallResultCommand(x *CallResultCommand, y *CallResultCommand, buf []byte) bool {
+	if x.Encode(buf) != nil {
+		return false
+	}
+	return y.Decode(buf) == nil
+}
+
+func verifReencodeCallResultCommand(x *CallResultCommand, in []byte, out []byte) bool {
+	if x.Decode(in) != nil {
+		return false
+	}
+	return x.Encode(out) == nil
+}
+
+func verifRoundTripLeaderCommand(x *LeaderCommand, y *LeaderCommand, buf []byte) bool {
+	if x.Encode(buf) != nil {
+		return false
+	}
+	return y.Decode(buf) == nil
+}
+
+func verifReencodeLeaderCommand(x *LeaderCommand, in []byte, out []byte) bool {
+	if x.Decode(in) != nil {
+		return false
+	}
+	return x.Encode(out) == nil
+}
+
+func verifRoundTripLeaderResultCommand(x *LeaderResultCommand, y *LeaderResultCommand, buf []byte) bool {
+	if x.Encode(buf) != nil {
+		return false
+	}
+	return y.Decode(buf) == nil
+}
+
+func verifReencodeLeaderResultCommand(x *LeaderResultCommand, in []byte, out []byte) bool {
+	if x.Decode(in) != nil {
+		return false
+	}
+	return x.Encode(out) == nil
+}
+
+func verifRoundTripSubscribeCommand(x *SubscribeCommand, y *SubscribeCommand, buf []byte) bool {
+	if x.Encode(buf) != nil {
+		return false
+	}
+	return y.Decode(buf) == nil
+}
+
+func verifReencodeSubscribeCommand(x *SubscribeCommand, in []byte, out []byte) bool {
+	if x.Decode(in) != nil {
+		return false
+	}
+	return x.Encode(out) == nil
+}
+
+func verifRoundTripSubscribeResultCommand(x *SubscribeResultCommand, y *SubscribeResultCommand, buf []byte) bool {
+	if x.Encode(buf) != nil {
+		return false
+	}
+	return y.Decode(buf) == nil
+}
+
+func verifReencodeSubscribeResultCommand(x *SubscribeResultCommand, in []byte, out []byte) bool {
+	if x.Decode(in) != nil {
+		return false
+	}
+	return x.Encode(out) == nil
+}
